@@ -25,6 +25,8 @@ ENTRY = "initialize"
 OPAQUE = ("init_config", "init_logger", "init_exceptions", "init_mimetypes")
 CONFIG = "config"
 LOGGERS = ("logger.log", "GopherExceptions.log")
+RECORD_FIELDS = {"pw_name": 0, "pw_passwd": 1, "pw_uid": 2, "pw_gid": 3, "pw_gecos": 4, "pw_dir": 5, "pw_shell": 6,
+                 "gr_name": 0, "gr_passwd": 1, "gr_gid": 2, "gr_mem": 3}
 KNOWN_EXC = ("BaseException", "Exception", "OSError", "IOError", "EnvironmentError", "KeyError", "LookupError",
              "RuntimeError", "AttributeError", "ValueError", "TypeError", "ImportError")
 
@@ -143,6 +145,9 @@ def register_units(UNITS, gen):
                     base = base.value
                 if isinstance(base, ast.Name) and base.id not in self.locals:
                     return "(ESym %s)" % q(dotted(e))
+                # named field of a pwd / grp record held in a local: the same as its tuple index
+                if e.attr in RECORD_FIELDS:
+                    return "(EIndex %s %d)" % (self.expr(e.value), RECORD_FIELDS[e.attr])
                 raise U("attribute of a local object used as a value: " + ast.dump(e)[:80])
             if isinstance(e, ast.Call):
                 return self.call(e)
